@@ -196,10 +196,10 @@ pub struct Case {
     pub threads: Vec<Vec<Op>>,
 }
 
-pub const N_INSTANTS: u8 = 12;
+pub const N_INSTANTS: u8 = 14;
 pub const N_DATETIMES: u8 = 5;
 pub const N_QUERIES: u8 = 10;
-pub const N_ZONED_MAKE: u8 = 24;
+pub const N_ZONED_MAKE: u8 = 30;
 pub const N_ZONED_MUTATE: u8 = 9;
 pub const N_TZ_MAKE: u8 = 10;
 pub const N_AMB_OPS: u8 = 6;
